@@ -79,8 +79,8 @@ ALLFN = ONE_ARG + VERIFIERS
 def plan(tier, seed):
     q = tier == "quick"
     specs = [{"kind": "positions", "part": i, "parts": 4} for i in range(4)]
-    for _ in range(6 if q else 14):
-        specs.append({"kind": "mutations", "count": 5000 if q else 75000, "double": not q, "budget": False})
+    for _ in range(8 if q else 20):
+        specs.append({"kind": "mutations", "count": 12000 if q else 150000, "double": not q, "budget": False})
     specs.append({"kind": "mutations", "count": 2500 if q else 30000, "double": True, "budget": True})
     specs.append({"kind": "hostile_json", "count": 1500 if q else 30000})
     for _ in range(2 if q else 6):
